@@ -283,6 +283,26 @@ def urlNorm (scheme host path query : Str) : Str :=
 def urlNormQ (scheme host path query : Str) (forceQuery : Bool) : Str :=
   if forceQuery && query.isEmpty then urlNorm scheme host path query ++ ['?'] else urlNorm scheme host path query
 
+/-- RFC 3986 §5.2.3 merge of a base path (of a URI with an authority) and a relative-path reference -/
+def mergePaths (basePath refPath : Str) : Str :=
+  if basePath.isEmpty then '/' :: refPath
+  else (basePath.reverse.dropWhile (· ≠ '/')).reverse ++ refPath
+
+/-- RFC 3986 §5.2.2 (transform references), on the components of the base (an http(s) request URI) and of the
+    reference; a query is "defined" when it is non-empty or the "?" is there. The dot segments are NOT removed here:
+    `urlNorm` does that, after the percent-encoding normalisation, exactly as for a request URI — so a reference and
+    a request that spell the same URI the same way have the same normal form.
+    Result: (scheme, authority, path, query, query-present-and-empty). -/
+def resolveRef (bScheme bHost bPath bQuery : Str) (bFq : Bool) (rScheme rHost rPath rQuery : Str) (rFq : Bool) :
+    Str × Str × Str × Str × Bool :=
+  if !rScheme.isEmpty then (rScheme, rHost, rPath, rQuery, rFq)
+  else if !rHost.isEmpty then (bScheme, rHost, rPath, rQuery, rFq)
+  else if rPath.isEmpty then
+    if rQuery.isEmpty && !rFq then (bScheme, bHost, bPath, bQuery, bFq) else (bScheme, bHost, bPath, rQuery, rFq)
+  else match rPath with
+    | '/' :: _ => (bScheme, bHost, rPath, rQuery, rFq)
+    | _ => (bScheme, bHost, mergePaths (rooted bHost bPath) rPath, rQuery, rFq)
+
 /-- same origin: scheme, host and effective port -/
 def sameOrigin (s1 h1 s2 h2 : Str) : Bool :=
   let (a, p) := splitAuthority h1
